@@ -45,7 +45,7 @@ def near_misses(word, rng, alpha, n=8):
     out = []
     w = word
     for _ in range(n):
-        kind = rng.choice(["del", "ins", "sub", "swap", "trunc", "dup", "ext"])
+        kind = rng.choice(["del", "ins", "sub", "swap", "trunc", "dup", "ext", "case", "case", "neighbour"])
         if kind == "del" and w:
             i = rng.randrange(len(w))
             out.append(w[:i] + w[i + 1:])
@@ -66,6 +66,16 @@ def near_misses(word, rng, alpha, n=8):
             out.append(w[:j] + w[i:j] + w[j:])
         elif kind == "ext":
             out.append(w + rng.choice(alpha))
+        elif kind == "case" and w:
+            # the same word with the case of one / all letters swapped
+            i = rng.randrange(len(w))
+            out.append(w[:i] + w[i].swapcase() + w[i + 1:])
+            out.append(w.swapcase())
+        elif kind == "neighbour" and w:
+            # a character replaced by its successor / predecessor code point
+            i = rng.randrange(len(w))
+            c2 = chr(max(0, min(0xFF, ord(w[i]) + rng.choice([-1, 1]))))
+            out.append(w[:i] + c2 + w[i + 1:])
     return out
 
 
